@@ -411,53 +411,207 @@ def task_binding(ctx):
         ctx.prove_eq("sum-q[%d]=sum-Z-trP" % m, tot, sum(Sym(E.var("tore%d" % z, E.R)) for z in sp[m]) - sum(vals["P"].a[m, k, k] for k in range(8)))
 
 
-def task_dipole(ctx):
-    """calc_ground_dipole = sum_A q_A r_A + hybridisation term; translating the molecule by t shifts it by (sum Z - tr P) t."""
+def replay_dipole_padding(model):
+    """real code: the dipole of OH- (total charge -1) computed alone and zero-padded next to methane, with two different sets of
+    padding coordinates: the three must agree (C05) and equal sum q_A r_A + hybridisation built from the published charges."""
+    import io, contextlib
+    import torch
+    from seqm.seqm_functions.constants import Constants
+    from seqm.Molecule import Molecule
+    from seqm.ElectronicStructure import Electronic_Structure
+
+    torch.set_default_dtype(torch.float64)
+    params = {"method": "AM1", "scf_eps": 1e-9, "scf_converger": [1], "sp2": [False, 1e-5], "elements": [0, 1, 6, 8], "learned": [], "pair_outer_cutoff": 1e10, "eig": True}
+    oh = [[0.3, 0.2, -0.1], [1.25, 0.35, 0.05]]
+    ch4 = [[5.0, 5.0, 5.0], [5.63, 5.63, 5.63], [4.37, 4.37, 5.63], [4.37, 5.63, 4.37], [5.63, 4.37, 4.37]]
+
+    def dip(species, xyz, charges):
+        mol = Molecule(Constants(), dict(params), torch.tensor(xyz), torch.tensor(species), charges=torch.tensor(charges))
+        with contextlib.redirect_stdout(io.StringIO()):
+            Electronic_Structure(dict(params))(mol)
+        return mol.dipole.detach().clone()
+
+    alone = dip([[8, 1]], [oh], [-1])[0]
+    pad0 = [[0.0, 0.0, 0.0]] * 3
+    pad1 = [[9.0, -7.0, 3.0]] * 3
+    b0 = dip([[6, 1, 1, 1, 1], [8, 1, 0, 0, 0]], [ch4, oh + pad0], [0, -1])[1]
+    b1 = dip([[6, 1, 1, 1, 1], [8, 1, 0, 0, 0]], [ch4, oh + pad1], [0, -1])[1]
+    dev = max(float((alone - b0).abs().max()), float((alone - b1).abs().max()))
+    return {"reproduced": dev > 1e-7, "dipole_alone": alone.tolist(), "in_batch_padding_at_origin": b0.tolist(), "in_batch_other_padding_coordinates": b1.tolist(), "max_abs_difference": dev}
+
+
+def dipole_contract(ctx):
+    """calc_ground_dipole = sum over the molecule's REAL atoms of q_A r_A + hybridisation term -- for a dense and a zero-padded batch
+    (symbolic padding coordinates, symbolic total charges): it mentions no padding coordinate and no other molecule; translating
+    the molecule by t shifts it by (sum Z - tr P) t."""
     fn = ctx.under_contract("seqm.seqm_functions.dipole:calc_ground_dipole")
     ctx.under_contract("seqm.seqm_functions.dipole:calc_dipole_matrix", stubs=["dd_qq"])
-    import seqm.seqm_functions.constants as C
+    rep = []
+
+    def rp(m_):
+        if not rep:
+            try:
+                rep.append(replay_dipole_padding({}))
+            except Exception as exc:  # noqa
+                rep.append({"reproduced": False, "error": repr(exc)[:300]})
+        return rep[0]
 
     def dd_stub(qn, zs, zp):
         return st.symbolic((len(qn),), "dd"), st.symbolic((len(qn),), "qq")
 
-    def run(shift):
-        def thunk():
-            mol = ghost_es_molecule()
-            mol.const.qn = st.tensor([0.0, 1, 1, 2, 2, 2, 2, 2, 2, 2])
-            if shift:
-                t = st.symbolic((3,), "t")
-                mol.coordinates = mol.coordinates + t
-            Pm = st.symbolic((2, 8, 8), "P")
-            # precondition (packing invariant, C05): the density vanishes on the p slots of hydrogen atoms
-            for m, i in ((0, 1), (1, 0), (1, 1)):
-                for k in range(1, 4):
-                    Pm.a[m, 4 * i + k, :] = S(0.0)
-                    Pm.a[m, :, 4 * i + k] = S(0.0)
-            fn(mol, Pm)
-            return mol, Pm
-        return ctx.explore(thunk, stubs={"seqm.seqm_functions.dipole:dd_qq": dd_stub}, constants={"a0": real("a0"), "to_debye": real("to_debye"), "debye_to_AU": real("debye_to_AU")}, name="dipole")
+    for tagl, species in (("dense", [[8, 1], [1, 1]]), ("padded", [[8, 1, 1], [1, 1, 0]])):
+        nmol, molsize = len(species), len(species[0])
+        n = 4 * molsize
 
-    ex0, ex1 = run(False), run(True)
-    for ex in (ex0, ex1):
-        if len(ex.paths) != 1 or ex.paths[0].raised is not None:
-            ctx.error("paths", "%r %s" % ([p.raised for p in ex.paths], ex.paths[0].notes.get("traceback", "")[-800:] if ex.paths else ""))
-            return
-    mol0, Pm = ex0.paths[0].value
-    mol1, _ = ex1.paths[0].value
-    unit = real("to_debye") * real("debye_to_AU")
-    sp = [[8, 1], [1, 1]]
-    x = st.symbolic((2, 2, 3), "x")
-    for m in range(2):
-        ntot = sum(Sym(E.var("tore%d" % z, E.R)) for z in sp[m]) - sum(Pm.a[m, k, k] for k in range(8))
-        for c in range(3):
-            # charges-times-positions part plus the one-centre s-p hybridisation part (heavy atoms only: atom 0 of molecule 0)
-            q_r = sum((Sym(E.var("tore%d" % sp[m][i], E.R)) - sum(Pm.a[m, 4 * i + k, 4 * i + k] for k in range(4))) * x.a[m, i, c] for i in range(2))
-            hyb = 0
-            if m == 0:
-                hyb = -(real("dd_0") * real("a0")) * (Pm.a[0, 0, c + 1] + Pm.a[0, c + 1, 0])
-            ctx.prove_eq("dipole[%d,%d]=sum q r + hybridisation" % (m, c), mol0.dipole.a[m, c], (q_r + hyb) * unit)
-            ctx.prove_eq("translation-shifts-dipole-by-net-charge[%d,%d]" % (m, c), mol1.dipole.a[m, c] - mol0.dipole.a[m, c], ntot * real("t_%d" % c) * unit)
-    ctx.assume_note("dd_qq (hybridisation arm) replaced by an uninterpreted stub; unit factors as named symbols")
+        def run(shift):
+            def thunk():
+                mol = ghost_es_molecule(species=species)
+                mol.const.qn = st.tensor([0.0, 1, 1, 2, 2, 2, 2, 2, 2, 2])
+                mol.tot_charge = st.symbolic((nmol,), "Qtot")
+                mol.charges = mol.tot_charge
+                if shift:
+                    t = st.symbolic((3,), "t")
+                    mol.coordinates = mol.coordinates + t
+                Pm = st.symbolic((nmol, n, n), "P")
+                # precondition (packing invariant, C05): the density vanishes on the p slots of hydrogen atoms and on padding slots
+                for m in range(nmol):
+                    for i, z in enumerate(species[m]):
+                        ks = range(1, 4) if z == 1 else (range(0, 4) if z == 0 else ())
+                        for k in ks:
+                            Pm.a[m, 4 * i + k, :] = S(0.0)
+                            Pm.a[m, :, 4 * i + k] = S(0.0)
+                fn(mol, Pm)
+                return mol, Pm
+            return ctx.explore(thunk, stubs={"seqm.seqm_functions.dipole:dd_qq": dd_stub}, constants={"a0": real("a0"), "to_debye": real("to_debye"), "debye_to_AU": real("debye_to_AU")}, name="dipole " + tagl)
+
+        ex0, ex1 = run(False), run(True)
+        bad_paths = False
+        for ex in (ex0, ex1):
+            if len(ex.paths) != 1 or ex.paths[0].raised is not None:
+                p0 = ex.paths[0] if ex.paths else None
+                if p0 is not None and isinstance(p0.raised, Unmodelled):
+                    raise p0.raised
+                ctx.fail(tagl + ".returns", "%r %s" % ([p.raised for p in ex.paths], p0.notes.get("traceback", "")[-600:] if p0 else ""), replay=rp(None))
+                bad_paths = True
+        if bad_paths:
+            continue
+        mol0, Pm = ex0.paths[0].value
+        mol1, _ = ex1.paths[0].value
+        unit = real("to_debye") * real("debye_to_AU")
+        x = st.symbolic((nmol, molsize, 3), "x")
+        heavy_index = 0
+        for m in range(nmol):
+            ntot = sum(Sym(E.var("tore%d" % z, E.R)) for z in species[m] if z > 0) - sum(Pm.a[m, k, k] for k in range(n))
+            for c in range(3):
+                q_r = sum(((Sym(E.var("tore%d" % z, E.R)) - sum(Pm.a[m, 4 * i + k, 4 * i + k] for k in range(4))) * x.a[m, i, c] for i, z in enumerate(species[m]) if z > 0), S(0))
+                hyb = S(0)
+                hi = heavy_index
+                for i, z in enumerate(species[m]):
+                    if z > 1:
+                        hyb = hyb - (real("dd_%d" % hi) * real("a0")) * (Pm.a[m, 4 * i, 4 * i + c + 1] + Pm.a[m, 4 * i + c + 1, 4 * i])
+                        hi += 1
+                ctx.prove_eq("%s.dipole[%d,%d]=sum q r over its real atoms + hybridisation" % (tagl, m, c), mol0.dipole.a[m, c], (q_r + hyb) * unit, replay=rp, classify=lambda m_, r: "dipole-depends-on-padding-or-batch")
+                ctx.prove_eq("%s.translation-shifts-dipole-by-net-charge[%d,%d]" % (tagl, m, c), mol1.dipole.a[m, c] - mol0.dipole.a[m, c], ntot * real("t_%d" % c) * unit, replay=rp)
+                foreign = set()
+                for v in E.free_vars(mol0.dipole.a[m, c].n):
+                    nm = v.val
+                    if nm.startswith("x_"):
+                        mm, ii = int(nm.split("_")[1]), int(nm.split("_")[2])
+                        if mm != m or species[mm][ii] == 0:
+                            foreign.add(nm)
+                    if nm.startswith("Qtot_") and int(nm.split("_")[1]) != m:
+                        foreign.add(nm)
+                (ctx.ok if not foreign else ctx.fail)("%s.dipole[%d,%d].mentions-only-its-own-real-atoms" % (tagl, m, c), "frame" if not foreign else "mentions %s" % sorted(foreign), **({} if not foreign else {"replay": rp(None)}))
+            heavy_index += sum(1 for z in species[m] if z > 1)
+    ctx.assume_note("dd_qq (hybridisation arm) replaced by an uninterpreted stub; unit factors as named symbols; batches [OH, HH] and [OHH, HH+padding]; the molecule carries symbolic total charges")
+
+
+def task_dipole(ctx):
+    """calc_ground_dipole = sum_A q_A r_A + hybridisation term over the molecule's real atoms (dense and zero-padded batch); translating the molecule by t shifts it by (sum Z - tr P) t."""
+    dipole_contract(ctx)
+
+
+def replay_orbital_pairs(model):
+    """real _crossing_match_molecular_orbitals on real torch: previous orbitals = identity, new orbitals = its columns in another
+    order (every permutation of three occupied and three virtual columns, with sign flips); after matching, column i and energy i
+    must still be a pair: F C_i = e_i C_i for F = sum_k e_k c_k c_k^T."""
+    import itertools
+    import torch
+    from seqm.basics import Energy
+
+    torch.set_default_dtype(torch.float64)
+    e = torch.tensor([[-3.0, -2.0, -1.0, 1.0, 2.5, 4.0]])
+    prev = torch.eye(6).unsqueeze(0)
+    worst, where = 0.0, None
+    for po in itertools.permutations(range(3)):
+        for pv in itertools.permutations(range(3)):
+            cols = list(po) + [3 + k for k in pv]
+            new = prev[:, :, cols].clone()
+            new[:, :, 1] *= -1.0
+            F = (new * e[:, None, :]) @ new.transpose(1, 2)
+            C, em = Energy._crossing_match_molecular_orbitals(new.clone(), prev.clone(), 3, e.clone())
+            res = float((F @ C - C * em[:, None, :]).abs().max())
+            if res > worst:
+                worst, where = res, (po, pv)
+    return {"reproduced": worst > 1e-12, "max |F C_i - e_i C_i| over all 36 column orders": worst, "worst order (occupied, virtual)": str(where)}
+
+
+def task_orbital_pairs(ctx):
+    """Energy._crossing_match_molecular_orbitals (orbital tracking between two calls on one molecule): what it returns is a
+    re-ordering of the (orbital, orbital energy) PAIRS within the occupied and within the virtual block: for every returned
+    column i that is +-(new column k), the returned energy i is the energy of new column k.  Real function on the shim; previous
+    orbitals = identity columns, new orbitals = the same columns in every order (36 orders of 3 + 3, one column with its sign
+    flipped), orbital energies symbolic."""
+    import itertools
+    import seqm.basics as B
+
+    ctx.under_contract(BAS + ":Energy._crossing_match_molecular_orbitals")
+    fn = B.Energy._crossing_match_molecular_orbitals
+    rep = []
+
+    def rp(m_):
+        if not rep:
+            try:
+                rep.append(replay_orbital_pairs({}))
+            except Exception as exc:  # noqa
+                rep.append({"reproduced": False, "error": repr(exc)[:300]})
+        return rep[0]
+
+    n_checked = 0
+    for po in itertools.permutations(range(3)):
+        for pv in itertools.permutations(range(3)):
+            cols = list(po) + [3 + k for k in pv]
+
+            def thunk():
+                prev = st.tensor(np.eye(6).reshape(1, 6, 6))
+                newa = np.eye(6)[:, cols].copy()
+                newa[:, 1] *= -1.0
+                new = st.tensor(newa.reshape(1, 6, 6))
+                e = st.symbolic((1, 6), "emo")
+                C, em = fn(new.clone(), prev.clone(), 3, e.clone())
+                return C, em, new, e
+
+            ex = ctx.explore(thunk, name="orbital matching %r" % (cols,), max_paths=8)
+            for p in ex.paths:
+                if p.raised is not None:
+                    raise p.raised if isinstance(p.raised, Unmodelled) else Unmodelled("orbital matching raised %r" % (p.raised,))
+                C, em, new, e = p.value
+                for i in range(6):
+                    col = [C.a[0, r, i] for r in range(6)]
+                    k = None
+                    for kk in range(6):
+                        nc = [new.a[0, r, kk] for r in range(6)]
+                        same = all(E.node_of(a) is E.node_of(b) or (E.node_of(a).op == "const" and E.node_of(b).op == "const" and abs(E.node_of(a).val) == abs(E.node_of(b).val)) for a, b in zip(col, nc))
+                        if same:
+                            k = kk
+                    if k is None:
+                        ctx.fail("orbital_pairs.order=%s.column[%d]-is-a-new-column" % ("".join(map(str, cols)), i), "returned column is not +- a column of the new orbitals", replay=rp(None))
+                        continue
+                    ctx.prove_eq("orbital_pairs.order=%s.energy[%d]-belongs-to-column[%d]" % ("".join(map(str, cols)), i, i), em.a[0, i], e.a[0, k], pc=p.pc, replay=rp, classify=lambda m_, r: "orbital-energies-permuted-against-orbitals")
+                    n_checked += 1
+    if not n_checked:
+        ctx.error("orbital_pairs.vacuous", "no obligation generated")
+    ctx.assume_note("orbital_pairs: overlaps between previous and new orbitals are exactly 0 or 1 (re-ordered identity columns); the greedy repair for ambiguous overlaps is reached only through its bijectivity test, not with competing candidates")
 
 
 def task_force_plumbing(ctx):
@@ -493,5 +647,5 @@ def task_force_plumbing(ctx):
         ctx.prove("tuple[%d]<-%s" % (pos, slot), E.and_(*[E.eq(a.n, b.n) for a, b in zip(out[pos].a.reshape(-1), vals[slot].a.reshape(-1))]))
 
 
-TASKS_QUICK = ["energy_totals", "energy_xl_observables", "energy_totals_uhf", "binding", "dipole", "force_plumbing"]
+TASKS_QUICK = ["energy_totals", "energy_xl_observables", "energy_totals_uhf", "binding", "dipole", "orbital_pairs", "force_plumbing"]
 TASKS_THOROUGH = TASKS_QUICK
